@@ -671,7 +671,7 @@ func c19Body(r *rand.Rand, head, extra []string, n int, tag string, tier string)
 	sweep := func(full bool) {
 		ops = append(ops, "root", "allpaths", fmt.Sprintf("pathidx %d", n-1), fmt.Sprintf("pathidx %d", r.Intn(n)),
 			fmt.Sprintf("pathleaf %d", r.Intn(n)), "pathmissing "+tag+"y", fmt.Sprintf("offerrand %d q%d", r.Intn(n), r.Intn(1000)))
-		if full && n <= verifyAllMax {
+		if full && n <= 120 {
 			ops = append(ops, "verifyall")
 		}
 	}
@@ -694,7 +694,7 @@ func c19Body(r *rand.Rand, head, extra []string, n int, tag string, tier string)
 			ops = append(ops, fmt.Sprintf("badload %d", m))
 		}
 	}
-	sweep(n <= 100)
+	sweep(n <= 60)
 	// indices looked at one by one: all of them for small trees, else the ends, the level-boundary ones and a sample
 	var idxs []int
 	if n <= 40 {
